@@ -783,6 +783,15 @@ Theorem no_internal_rdata_wire_all_types : forall c t w r ck wire cur rdlen,
   end.
 Proof. intros. eapply table_from_wire_family; eauto. exact gen_table_ok. Qed.
 Print Assumptions no_internal_rdata_wire_all_types.
+(* every module of dns/rdtypes/** is covered: a regular codec (theorem above) or one of the hand
+   models of Model/SchemaHand.v (Props/C04.v no_internal_rdata_wire_hand, rdata_wire_hand_renders) *)
+Definition hand_keys : list (Z * Z) := [%HANDKEYS%].
+Theorem gen_all_types_covered :
+  forallb (fun e => match e_codec e with
+                    | CSchema _ _ _ => true
+                    | CHand _ => existsb (fun k => (fst k =? e_class e) && (snd k =? e_type e)) hand_keys
+                    end) table = true.
+Proof. vm_compute. reflexivity. Qed.
 (* how many (class, type) modules are covered by it, and which are hand-modelled *)
 Eval vm_compute in (length (filter (fun e => match e_codec e with CSchema _ _ _ => true | _ => false end) table),
                     map (fun e => (e_class e, e_type e)) (filter (fun e => match e_codec e with CSchema _ _ _ => false | _ => true end) table)).
@@ -807,8 +816,9 @@ def generated_schema_obligation(ctx):
                 "detail": ("%d modules translated" % len(tr["types"])) if tr["ok"] else "translator failed closed: " + "; ".join(tr["errors"])[:300]})
     with open(os.path.join(d, "GenRdtypes.v"), "w") as f:
         f.write(TR.emit_coq(tr))
+    hk = "; ".join(f"({t['rdclass']}, {t['rdtype']})" for t in tr["types"] if t["kind"] == "hand" and t.get("hand") in TR.COQ_HAND)
     with open(os.path.join(d, "GenC04.v"), "w") as f:
-        f.write(GEN_C04)
+        f.write(GEN_C04.replace("%HANDKEYS%", hk))
     _lib.coq_make(["Proofs/UntrustedSchema.vo"])
     rc, o1, _ = _lib.run_cmd(["coqc", "-Q", _lib.COQ, "DV", "-Q", d, "Scratch", os.path.join(d, "GenRdtypes.v")], timeout=600)
     rc2, o2 = 1, ""
@@ -821,6 +831,8 @@ def generated_schema_obligation(ctx):
         info = f"{m.group(1)} schema codecs; hand-modelled (outside this theorem): {m.group(2)[:200]}"
     out.append({"name": "no_internal_rdata_wire_all_types", "ok": ok,
                 "detail": info if ok else ("generated theorem does not check: " + (o1 + o2)[-600:])})
+    out.append({"name": "gen_all_types_covered", "ok": ok,
+                "detail": "every rdtypes module has a regular or a hand-modelled codec" if ok else "see no_internal_rdata_wire_all_types"})
     return out
 
 
